@@ -182,6 +182,16 @@ func (x *extState) nemesisExt(c *checker, e *sim.Ev) {
 	}
 }
 
+// configAppend: a leader that changes the configuration after it was cut off
+// may have given itself a different quorum; the cut no longer says anything.
+func (x *extState) configAppend(key instKey) {
+	for _, lc := range x.leaseCuts {
+		if lc.key == key && !lc.down {
+			lc.void = true
+		}
+	}
+}
+
 func (x *extState) leaseStepdown(c *checker, s *server, key instKey, e *sim.Ev) {
 	if c.params.Y == "quiet" {
 		c.violate("C13", "spurious-lease-stepdown", e.Seq, "%s stepped down by the lease check (contacted %d of quorum %d) in a fault-free run", key, e.A, e.B)
@@ -203,6 +213,10 @@ func (x *extState) leaseApply(c *checker, cl *call, e *sim.Ev) {
 func (x *extState) finishLease(c *checker) {
 	endT := c.lastT
 	for _, lc := range x.leaseCuts {
+		if lc.void {
+			c.cov("lease-cut-voided-by-config-change")
+			continue
+		}
 		bound := 2 * lc.leaseMs * 1e6
 		s := c.server(lc.key.s)
 		_ = s
